@@ -176,7 +176,9 @@ def parse_date(date):
     if isinstance(date, error.XLError):
         return date
     if isinstance(date, datetime.datetime):
-        return date
+        # the arithmetic below works on naive date-times: a zone-aware one keeps its wall-clock
+        # fields (comparing it with the naive epoch would raise TypeError)
+        return date.replace(tzinfo=None) if date.tzinfo is not None else date
     date = to_number(date)
     if isinstance(date, number_types):
         if date < 0:
@@ -188,7 +190,8 @@ def parse_date(date):
         return epoch + datetime.timedelta(seconds=(epoch_seconds(date_1900) + (date - 2) * 86400))
     if isinstance(date, string_types):
         try:
-            return to_date(date)
+            date = to_date(date)
+            return date.replace(tzinfo=None) if date.tzinfo is not None else date
         except (ValueError, OverflowError):  # dateutil overflows on "99999999999999999999 1"
             pass
     return error.VALUE
